@@ -111,7 +111,9 @@ OnRunRet(e) ==
     LET left == {p \in S.pend : p[1] >= 0 /\ p[1] < End}
         why == FirstFail(<<
           <<"C17.run_raised_an_exception", e.ok = 1>>,
-          <<"C17.run_returned_before_end_time_without_stop", S.stopCall \/ e.w >= End>>,
+          \* the run is over when the wall clock has reached the end - or when the monotonic floor (previous + 1) has
+          \* carried the evaluation time there, at most one smallest step earlier
+          <<"C17.run_returned_before_end_time_without_stop", S.stopCall \/ e.w >= End \/ S.prev + 1 >= End>>,
           <<"C17.alarm_dropped", S.stopCall \/ S.cut \/ \A p \in left : p[3] # "wall">>,
           <<"C17.wakeup_dropped_before_end", S.stopCall \/ S.cut \/ left = {}>> >>, 1)
     IN IF why # "" THEN Fail(why) ELSE Ok([S EXCEPT !.inCycle = FALSE])
